@@ -2,6 +2,8 @@ package main
 
 import (
 	"bufio"
+	"context"
+	"errors"
 	"fmt"
 	"net/url"
 	"strings"
@@ -54,42 +56,276 @@ func c15Issue(bed *opbed.Bed, sy *symbols, fc *flowClient, user string) c15Token
 	return t
 }
 
-// classify what the access_token member of a response is and whether it is live / verifies
-func c15Classify(bed *opbed.Bed, tok string) (kind string, live bool, subject string) {
+// what the access_token member of a response is: kind, liveness, and what the token carries
+type c15Issued struct {
+	kind     string // "access" | "id" | "other" | ""
+	live     bool
+	subject  string
+	audience []string
+}
+
+func c15Classify(bed *opbed.Bed, tok string) c15Issued {
 	if tok == "" {
-		return "", false, ""
+		return c15Issued{}
+	}
+	stored := func(id string) (c15Issued, bool) {
+		if rec := bed.Store.Token(id); rec != nil {
+			return c15Issued{kind: "access", live: bed.Store.TokenLive(id), subject: rec.Subject, audience: rec.Audience}, true
+		}
+		return c15Issued{}, false
 	}
 	if plain, err := crypto.DecryptAES(tok, string(bed.CryptoKey[:])); err == nil {
 		parts := strings.Split(plain, ":")
 		if len(parts) == 2 {
-			if rec := bed.Store.Token(parts[0]); rec != nil {
-				return "access", bed.Store.TokenLive(parts[0]), rec.Subject
+			if is, ok := stored(parts[0]); ok {
+				return is
 			}
 		}
-		return "other", false, ""
+		return c15Issued{kind: "other"}
 	}
 	m, ok := opbed.DecodeJWT(tok)
 	if !ok {
-		return "other", false, ""
+		return c15Issued{kind: "other"}
 	}
 	jws, err := jose.ParseSigned(tok, allAlgs)
 	if err != nil {
-		return "other", false, ""
+		return c15Issued{kind: "other"}
 	}
 	if _, err := jws.Verify(bed.SignKey.Pub); err != nil {
-		return "other", false, ""
+		return c15Issued{kind: "other"}
 	}
 	sub, _ := m["sub"].(string)
 	if jti, _ := m["jti"].(string); jti != "" {
-		if rec := bed.Store.Token(jti); rec != nil {
-			return "access", bed.Store.TokenLive(jti), rec.Subject
+		if is, ok := stored(jti); ok {
+			return is
+		}
+	}
+	var aud []string
+	switch a := m["aud"].(type) {
+	case string:
+		aud = []string{a}
+	case []any:
+		for _, x := range a {
+			if s, ok := x.(string); ok {
+				aud = append(aud, s)
+			}
 		}
 	}
 	exp, _ := m["exp"].(float64)
-	if iss, _ := m["iss"].(string); iss == opbed.Issuer && int64(exp) > time.Now().Unix() {
-		return "id", true, sub
+	iss, _ := m["iss"].(string)
+	return c15Issued{kind: "id", live: iss == opbed.Issuer && int64(exp) > time.Now().Unix(), subject: sub, audience: aud}
+}
+
+// ---------------------------------------------------------------- one case
+
+type c15Reg struct { // the presenter's registration
+	te, rt bool   // registered for the token-exchange / refresh_token grant
+	auth   string // basic | post | none | pk
+	jwtAT  bool   // its access tokens are JWTs
+}
+
+type c15Spec struct {
+	router         string
+	capTE, capTEV  bool
+	storeDefault   string // requested_token_type the storage fills in when absent ("" = refresh_token)
+	reg            c15Reg
+	cred           string // own | wrong-secret | basic-for-post (a post client sending Basic)
+	user           string
+	skind, sdecl   string // sdecl "right" = the type the token really has
+	akind, adecl   string
+	requested      string
+	scopes         []string
+	audience, rsrc []string
+	sshadow        bool   // the verifier storage ALSO knows the provider's own subject / actor token, as other identities:
+	ashadow        bool   // the provider's own resolution must win, the storage is only a fallback
+	fixed          string // label of a deterministic preamble case ("" = random)
+}
+
+var (
+	c15TPKinds = []string{"tp-both", "tp-both-diff", "tp-subj-only", "tp-actor-only", "tp-neither"}
+)
+
+func c15Random(r *hx.Rand) c15Spec {
+	sp := c15Spec{router: hx.Pick(r, "provider", "legacy"), capTE: r.Chance(90), capTEV: r.Chance(70),
+		storeDefault: hx.Pick(r, "", "", ttAccess, ttID)}
+	// the presenter: {token-exchange grant} x {refresh grant} x auth method, mostly with the exchange grant
+	sp.reg = c15Reg{te: r.Chance(90), rt: r.Bool(), auth: hx.Pick(r, "basic", "basic", "basic", "basic", "basic", "post", "none", "pk"), jwtAT: r.Chance(25)}
+	sp.cred = hx.Pick(r, "own", "own", "own", "own", "own", "own", "own", "own", "own", "own", "own", "own", "own", "wrong-secret")
+	sp.user = hx.Pick(r, "user1", "user1", "user1", "user2", "user2", "user1", "user2", "user1", "user2", refstore.BlockedUser)
+	if r.Chance(35) {
+		sp.skind = hx.Pick(r, c15TPKinds...)
+	} else {
+		sp.skind = hx.Pick(r, "opaque-at", "opaque-at", "jwt-at", "refresh", "refresh", "id", "expired-at", "revoked-at", "revoked-jwt-at", "expired-id", "foreign-jwt", "rotated-rt", "garbage")
 	}
-	return "id", false, sub
+	sp.sshadow, sp.ashadow = r.Chance(12), r.Chance(12)
+	sp.sdecl = "right"
+	if r.Chance(15) {
+		sp.sdecl = hx.Pick(r, ttAccess, ttRefresh, ttID, ttJWT, "urn:unknown", "")
+	}
+	switch {
+	case r.Chance(45):
+		sp.akind = "none"
+	case r.Chance(50):
+		sp.akind = hx.Pick(r, c15TPKinds...)
+	default:
+		sp.akind = hx.Pick(r, "opaque-at", "jwt-at", "id", "refresh", "expired-at", "revoked-jwt-at", "expired-id", "garbage")
+	}
+	sp.adecl = "right"
+	if r.Chance(12) {
+		sp.adecl = hx.Pick(r, ttAccess, ttID, ttJWT, "urn:unknown")
+	}
+	sp.requested = hx.Pick(r, "", "", ttAccess, ttAccess, ttAccess, ttRefresh, ttRefresh, ttRefresh, ttID, ttID, ttJWT, "urn:unknown")
+	sp.scopes = hx.Pick(r, []string{"openid"}, []string{"openid", "profile"}, []string{"openid", "address"}, []string(nil),
+		[]string{"openid", refstore.ImpersonateScopePrefix + "user2"}, []string{"openid", refstore.ImpersonateScopePrefix + refstore.BlockedUser})
+	sp.audience = hx.Pick(r, []string(nil), []string(nil), []string{"api1"}, []string{"api1", "api2"})
+	sp.rsrc = hx.Pick(r, []string(nil), []string(nil), []string{"https://rs.example/a"})
+	return sp
+}
+
+// c15Fixed: a deterministic preamble that every run (quick and thorough) starts with - the shapes a reviewer would ask for by name
+func c15Fixed() []c15Spec {
+	base := c15Spec{capTE: true, capTEV: true, reg: c15Reg{te: true, rt: true, auth: "basic"}, cred: "own", user: "user1",
+		skind: "opaque-at", sdecl: "right", akind: "none", adecl: "right", requested: ttAccess, scopes: []string{"openid"}}
+	var out []c15Spec
+	add := func(label string, f func(*c15Spec)) {
+		for _, router := range []string{"provider", "legacy"} {
+			sp := base
+			sp.router, sp.fixed = router, label
+			f(&sp)
+			out = append(out, sp)
+		}
+	}
+	// a JWT access token (live / revoked) declared as an ID token, as subject and as actor
+	add("jwt-at-as-id", func(s *c15Spec) { s.skind, s.sdecl = "jwt-at", ttID })
+	add("revoked-jwt-at-as-id", func(s *c15Spec) { s.skind, s.sdecl = "revoked-jwt-at", ttID })
+	add("actor-revoked-jwt-at-as-id", func(s *c15Spec) { s.akind, s.adecl = "revoked-jwt-at", ttID })
+	// exchange grant without refresh grant asking for a refresh token (explicitly / through the storage default)
+	add("te-without-rt-grant:refresh", func(s *c15Spec) { s.reg.rt, s.requested = false, ttRefresh })
+	add("te-without-rt-grant:default", func(s *c15Spec) { s.reg.rt, s.requested = false, "" })
+	add("te-with-rt-grant:access", func(s *c15Spec) { s.requested = ttAccess })
+	// third-party tokens, one role at a time and the same token in both roles
+	for _, k := range c15TPKinds {
+		k := k
+		add("subject:"+k, func(s *c15Spec) { s.skind = k })
+		add("actor:"+k, func(s *c15Spec) { s.akind = k })
+		add("both:"+k, func(s *c15Spec) { s.skind, s.akind = k, k })
+	}
+	add("own-token-shadowed-in-verifier-table", func(s *c15Spec) { s.skind, s.sshadow, s.akind, s.ashadow = "id", true, "id", true })
+	add("tp-without-verifier", func(s *c15Spec) { s.skind, s.capTEV = "tp-both", false })
+	add("expired-id", func(s *c15Spec) { s.skind = "expired-id" })
+	add("actor-expired-id", func(s *c15Spec) { s.akind = "expired-id" })
+	add("requested-jwt", func(s *c15Spec) { s.requested = ttJWT })
+	add("blocked-user", func(s *c15Spec) { s.user = refstore.BlockedUser })
+	add("audience", func(s *c15Spec) {
+		s.audience, s.rsrc, s.scopes = []string{"api1"}, []string{"https://rs.example/a"}, []string{"openid", "profile"}
+	})
+	return out
+}
+
+// a presented token with its ground truth
+type c15Pres struct {
+	tok   string
+	isTP  bool
+	right string          // the type it really has ("" = none of the four)
+	live  map[string]bool // declared type -> it is a live token OF THAT TYPE at the provider (reference storage's truth)
+	sub   string          // whose token it is
+}
+
+type c15Case struct {
+	bed  *opbed.Bed
+	sy   *symbols
+	web  *flowClient
+	webj *flowClient
+	ctx  context.Context
+}
+
+func (c *c15Case) mk(kind, user, role string) c15Pres {
+	bed := c.bed
+	p := c15Pres{live: map[string]bool{}, sub: user}
+	own := func(fc *flowClient) c15Tokens { return c15Issue(bed, c.sy, fc, user) }
+	switch kind {
+	case "opaque-at":
+		p.tok, p.right, p.live[ttAccess] = own(c.web).access, ttAccess, true
+	case "jwt-at":
+		p.tok, p.right, p.live[ttAccess] = own(c.webj).access, ttAccess, true
+	case "refresh":
+		p.tok, p.right, p.live[ttRefresh] = own(c.web).refresh, ttRefresh, true
+	case "id":
+		p.tok, p.right, p.live[ttID] = own(c.web).id, ttID, true
+	case "expired-at":
+		t := own(c.web)
+		bed.Store.ExpireToken(t.atID)
+		p.tok, p.right = t.access, ttAccess
+	case "revoked-at":
+		t := own(c.web)
+		bed.Do(bed.Form("/revoke", url.Values{"token": {t.access}}, ownAuth(c.sy, c.web)))
+		p.tok, p.right = t.access, ttAccess
+	case "revoked-jwt-at":
+		t := own(c.webj)
+		bed.Do(bed.Form("/revoke", url.Values{"token": {t.access}}, ownAuth(c.sy, c.webj)))
+		p.tok, p.right = t.access, ttAccess
+	case "expired-id":
+		now := time.Now().Unix()
+		claims := fmt.Sprintf(`{"iss":"%s","sub":"%s","aud":["web"],"azp":"web","exp":%d,"iat":%d}`, opbed.Issuer, user, now-100, now-4000)
+		p.tok, _ = hx.Sign(bed.SignKey, bed.Cfg.SignAlg, "sig1", []byte(claims))
+		p.right = ttID
+	case "foreign-jwt":
+		now := time.Now().Unix()
+		claims := fmt.Sprintf(`{"iss":"%s","sub":"%s","aud":["web"],"azp":"web","exp":%d,"iat":%d,"jti":"at1"}`, opbed.Issuer, user, now+300, now-5)
+		p.tok, _ = hx.Sign(hx.Keys()[1], "RS256", "sig1", []byte(claims))
+	case "rotated-rt":
+		t := own(c.web)
+		bed.Do(bed.Form("/oauth/token", url.Values{"grant_type": {"refresh_token"}, "refresh_token": {t.refresh}}, ownAuth(c.sy, c.web)))
+		p.tok, p.right = t.refresh, ttRefresh
+	case "tp-both", "tp-both-diff", "tp-subj-only", "tp-actor-only", "tp-neither":
+		// a third-party credential only the optional verifier storage knows; its two role policies are independent
+		p.tok, p.isTP = "tp:"+kind, true
+		t := refstore.ThirdPartyToken{}
+		switch kind {
+		case "tp-both":
+			t.AsSubject = refstore.RoleAnswer{Accept: true, ID: p.tok, Subject: "tp-user"}
+			t.AsActor = t.AsSubject
+		case "tp-both-diff":
+			t.AsSubject = refstore.RoleAnswer{Accept: true, ID: p.tok, Subject: "tp-user-s"}
+			t.AsActor = refstore.RoleAnswer{Accept: true, ID: p.tok, Subject: "tp-user-a"}
+		case "tp-subj-only":
+			t.AsSubject = refstore.RoleAnswer{Accept: true, ID: p.tok, Subject: "tp-user-s"}
+		case "tp-actor-only":
+			t.AsActor = refstore.RoleAnswer{Accept: true, ID: p.tok, Subject: "tp-user-a"}
+		}
+		bed.Store.SetThirdPartyToken(p.tok, t)
+	default:
+		p.tok = "garbage-" + role
+	}
+	return p
+}
+
+// oracle answers for one presented token: what the provider's own libraries / storage make of it, asked directly
+func (c *c15Case) oracleKV(l *hx.Line, pfx, label, tok, declared string) {
+	bed := c.bed
+	l.S(pfx+"tok", label)
+	if plain, err := bed.Provider.Crypto().Decrypt(tok); err == nil {
+		l.B(pfx+"decok", true).S(pfx+"dec", plain)
+	}
+	if cl, err := op.VerifyAccessToken[*oidc.AccessTokenClaims](c.ctx, tok, bed.Provider.AccessTokenVerifier(c.ctx)); err == nil {
+		l.L(pfx+"jwt", []string{cl.JWTID, cl.Subject})
+	}
+	if rec := bed.Store.Refresh(tok); rec != nil && rec.Expiration.After(time.Now()) {
+		l.L(pfx+"rt", []string{rec.Subject})
+	}
+	cl, err := op.VerifyIDTokenHint[*oidc.IDTokenClaims](c.ctx, tok, bed.Provider.IDTokenHintVerifier(c.ctx))
+	switch {
+	case err == nil:
+		l.L(pfx+"hint", []string{"valid", cl.Subject})
+	case errors.As(err, &op.IDTokenHintExpiredError{}):
+		l.L(pfx+"hint", []string{"expired", cl.Subject})
+	}
+	if a := bed.Store.ThirdPartyAnswer(tok, oidc.TokenType(declared), false); a.Accept {
+		l.L(pfx+"vs", []string{a.ID, a.Subject})
+	}
+	if a := bed.Store.ThirdPartyAnswer(tok, oidc.TokenType(declared), true); a.Accept {
+		l.L(pfx+"va", []string{a.ID, a.Subject})
+	}
 }
 
 func c15Stream(r *hx.Rand, tier string, n int, w *bufio.Writer) map[string]int {
@@ -101,163 +337,280 @@ func c15Stream(r *hx.Rand, tier string, n int, w *bufio.Writer) map[string]int {
 	}
 	stats := map[string]int{}
 	sy := newSymbols()
+	fixed := c15Fixed()
 	for i := 0; i < n; i++ {
-		router := hx.Pick(r, "provider", "legacy")
-		capTE := r.Chance(88)
-		bed, err := opbed.New(opbed.Config{Router: router, S256: true, Post: true, PrivateKeyJWT: true, Refresh: true,
-			Caps: refstore.Caps{CC: true, TE: capTE, Device: true}})
+		var sp c15Spec
+		if i < len(fixed) {
+			sp = fixed[i]
+		} else {
+			sp = c15Random(r)
+		}
+		bed, err := opbed.New(opbed.Config{Router: sp.router, S256: true, Post: true, PrivateKeyJWT: true, Refresh: true,
+			Caps: refstore.Caps{CC: true, TE: sp.capTE, TEVerifier: sp.capTEV, Device: true}})
 		if err != nil {
 			panic(err)
 		}
-		cls := flowClients()
-		webjwt := opbed.WebClient("webjwt", "secret-jwt", "https://rp.example/cb")
-		webjwt.TokenType = op.AccessTokenTypeJWT
-		limited := opbed.WebClient("limited", "secret-lim", "https://rp.example/cb")
-		limited.Grants = []oidc.GrantType{oidc.GrantTypeCode, oidc.GrantTypeRefreshToken}
-		cls = append(cls, &flowClient{c: webjwt}, &flowClient{c: limited})
+		bed.Store.TEDefaultType = sp.storeDefault
+		// registrations: two issuing clients (opaque / JWT access tokens) and the presenter
+		web := &flowClient{c: opbed.WebClient("web", "secret-web", "https://rp.example/cb")}
+		webjwtC := opbed.WebClient("webjwt", "secret-jwt", "https://rp.example/cb")
+		webjwtC.TokenType = op.AccessTokenTypeJWT
+		webjwt := &flowClient{c: webjwtC}
+		px := opbed.WebClient("px", "secret-px", "https://rp.example/cb")
+		px.Grants = []oidc.GrantType{oidc.GrantTypeCode}
+		if sp.reg.te {
+			px.Grants = append(px.Grants, oidc.GrantTypeTokenExchange)
+		}
+		if sp.reg.rt {
+			px.Grants = append(px.Grants, oidc.GrantTypeRefreshToken)
+		}
+		if sp.reg.jwtAT {
+			px.TokenType = op.AccessTokenTypeJWT
+		}
+		pres := &flowClient{c: px}
+		switch sp.reg.auth {
+		case "post":
+			px.Auth = oidc.AuthMethodPost
+		case "none":
+			px.Auth, px.Secret, px.App = oidc.AuthMethodNone, "", op.ApplicationTypeNative
+		case "pk":
+			px.Auth, px.Secret = oidc.AuthMethodPrivateKeyJWT, ""
+			px.Keys = []refstore.ClientKey{{Kid: "pk1", Pub: hx.Keys()[1].Pub}}
+			pres.key, pres.kid = hx.Keys()[1], "pk1"
+		}
+		cls := []*flowClient{web, webjwt, pres}
 		for _, fc := range cls {
 			bed.Store.AddClient(fc.c)
 		}
-		for _, u := range []string{"user1", "user2", refstore.BlockedUser} {
+		for _, u := range []string{"user1", "user2", "actor1", "tp-user", "tp-user-s", "tp-user-a", "shadow-s", "shadow-a", refstore.BlockedUser} {
 			bed.Store.AddUser(u, nil)
 		}
-		byID := map[string]*flowClient{}
-		for _, fc := range cls {
-			byID[fc.c.ID] = fc
-		}
-		user := hx.Pick(r, "user1", "user1", "user1", "user2", "user2", "user1", "user2", "user1", "user2", refstore.BlockedUser)
-		opaque := c15Issue(bed, sy, byID["web"], user)
-		jwtT := c15Issue(bed, sy, byID["webjwt"], user)
+		cs := &c15Case{bed: bed, sy: sy, web: web, webj: webjwt, ctx: op.ContextWithIssuer(context.Background(), opbed.Issuer)}
 
-		// ---- subject token
-		type pres struct {
-			tok, declared, subject string
-			liveAs                 map[string]bool // declared type -> live
-		}
-		mk := func(kind string) pres {
-			p := pres{liveAs: map[string]bool{}, subject: user}
-			switch kind {
-			case "opaque-at":
-				p.tok, p.liveAs[ttAccess] = opaque.access, true
-			case "jwt-at":
-				p.tok, p.liveAs[ttAccess] = jwtT.access, true
-			case "refresh":
-				p.tok, p.liveAs[ttRefresh] = opaque.refresh, true
-			case "id":
-				p.tok, p.liveAs[ttID] = opaque.id, true
-			case "expired-at":
-				bed.Store.ExpireToken(opaque.atID)
-				p.tok = opaque.access
-			case "revoked-at":
-				bed.Do(bed.Form("/revoke", url.Values{"token": {opaque.access}}, ownAuth(sy, byID["web"])))
-				p.tok = opaque.access
-			case "expired-id":
-				now := time.Now().Unix()
-				claims := fmt.Sprintf(`{"iss":"%s","sub":"%s","aud":["web"],"azp":"web","exp":%d,"iat":%d}`, opbed.Issuer, user, now-100, now-4000)
-				p.tok, _ = hx.Sign(bed.SignKey, bed.Cfg.SignAlg, "sig1", []byte(claims))
-			case "foreign-jwt":
-				now := time.Now().Unix()
-				claims := fmt.Sprintf(`{"iss":"%s","sub":"%s","aud":["web"],"azp":"web","exp":%d,"iat":%d,"jti":"%s"}`, opbed.Issuer, user, now+300, now-5, opaque.atID)
-				p.tok, _ = hx.Sign(hx.Keys()[1], "RS256", "sig1", []byte(claims))
-			case "rotated-rt":
-				bed.Do(bed.Form("/oauth/token", url.Values{"grant_type": {"refresh_token"}, "refresh_token": {opaque.refresh}}, ownAuth(sy, byID["web"])))
-				p.tok = opaque.refresh
-			default:
-				p.tok = "garbage-token"
+		// ---- presented tokens and their ground truth
+		subj := cs.mk(sp.skind, sp.user, "subject")
+		declared := sp.sdecl
+		if declared == "right" {
+			declared = subj.right
+			if declared == "" {
+				if subj.isTP {
+					declared = hx.Pick(r, ttJWT, ttJWT, ttJWT, ttJWT, ttJWT, ttJWT, ttJWT, ttAccess, ttRefresh, ttID)
+				} else {
+					declared = hx.Pick(r, ttAccess, ttRefresh, ttID, ttJWT)
+				}
 			}
-			return p
 		}
-		skind := hx.Pick(r, "opaque-at", "opaque-at", "jwt-at", "refresh", "refresh", "id", "expired-at", "revoked-at", "expired-id", "foreign-jwt", "rotated-rt", "garbage")
-		subj := mk(skind)
-		// declared type: usually the right one
-		declared := ""
-		for t := range subj.liveAs {
-			declared = t
-		}
-		if declared == "" {
-			declared = hx.Pick(r, ttAccess, ttRefresh, ttID)
-		}
-		if r.Chance(15) {
-			declared = hx.Pick(r, ttAccess, ttRefresh, ttID, ttJWT, "urn:unknown", "")
-		}
-		requested := hx.Pick(r, "", ttAccess, ttAccess, ttAccess, ttRefresh, ttRefresh, ttID, ttID, ttJWT, "urn:unknown")
-		// actor
-		actorKind := hx.Pick(r, "none", "none", "none", "live", "dead", "garbage")
-		var actor pres
+		var actor c15Pres
 		actorDeclared := ""
-		switch actorKind {
-		case "live":
-			actor = pres{tok: jwtT.access, liveAs: map[string]bool{ttAccess: true}}
-			actorDeclared = ttAccess
-		case "dead":
-			bed.Store.ExpireToken(jwtT.atID)
-			actor = pres{tok: jwtT.access, liveAs: map[string]bool{}}
-			actorDeclared = ttAccess
-			if skind == "jwt-at" {
-				subj.liveAs = map[string]bool{}
+		if sp.akind != "none" {
+			if sp.akind == sp.skind && subj.isTP {
+				actor = subj // the SAME third-party token in both roles
+			} else {
+				actor = cs.mk(sp.akind, "actor1", "actor")
 			}
-		case "garbage":
-			actor = pres{tok: "garbage-actor", liveAs: map[string]bool{}}
-			actorDeclared = hx.Pick(r, ttAccess, ttID, "urn:unknown")
+			actorDeclared = sp.adecl
+			if actorDeclared == "right" {
+				actorDeclared = actor.right
+				if actorDeclared == "" {
+					actorDeclared = hx.Pick(r, ttJWT, ttJWT, ttJWT, ttAccess, ttID)
+				}
+			}
 		}
-		scopes := hx.Pick(r, []string{"openid"}, []string{"openid", "profile"}, []string{"openid", "address"}, []string(nil),
-			[]string{"openid", refstore.ImpersonateScopePrefix + "user2"})
-		presenter := hx.Pick(r, "web", "web", "web", "web", "web", "web", "web", "web", "web-wrong", "limited", "pub")
+		shadow := func(p c15Pres) {
+			if !p.isTP && p.tok != "" {
+				bed.Store.SetThirdPartyToken(p.tok, refstore.ThirdPartyToken{
+					AsSubject: refstore.RoleAnswer{Accept: true, ID: "shadow-id", Subject: "shadow-s"}, AsActor: refstore.RoleAnswer{Accept: true, ID: "shadow-id", Subject: "shadow-a"}})
+				stats["own-token-also-in-verifier-table"]++
+			}
+		}
+		if sp.sshadow {
+			shadow(subj)
+		}
+		if sp.ashadow && sp.akind != "none" {
+			shadow(actor)
+		}
+		role := func(p c15Pres, decl string, asActor bool) (live bool, sub string) {
+			if p.live[decl] {
+				return true, p.sub
+			}
+			if a := bed.Store.ThirdPartyAnswer(p.tok, oidc.TokenType(decl), asActor); sp.capTEV && a.Accept {
+				return true, a.Subject
+			}
+			return false, ""
+		}
+		sLive, sSub := role(subj, declared, false)
+		aLive, aSub := false, ""
+		if sp.akind != "none" {
+			aLive, aSub = role(actor, actorDeclared, true)
+		}
+
+		// ---- the request
 		form := url.Values{"grant_type": {string(oidc.GrantTypeTokenExchange)}, "subject_token": {subj.tok}}
 		if declared != "" {
 			form.Set("subject_token_type", declared)
 		}
-		if requested != "" {
-			form.Set("requested_token_type", requested)
+		if sp.requested != "" {
+			form.Set("requested_token_type", sp.requested)
 		}
-		if actorKind != "none" {
+		if sp.akind != "none" {
 			form.Set("actor_token", actor.tok)
 			form.Set("actor_token_type", actorDeclared)
 		}
-		if len(scopes) > 0 {
-			form.Set("scope", strings.Join(scopes, " "))
+		if len(sp.scopes) > 0 {
+			form.Set("scope", strings.Join(sp.scopes, " "))
 		}
-		var auth opbed.Auth
-		switch presenter {
-		case "web-wrong":
-			auth = opbed.Auth{Kind: "basic", ID: "web", Secret: "wrong"}
-		case "pub":
-			auth = opbed.Auth{Kind: "id-only", ID: "pub"}
-		default:
-			auth = ownAuth(sy, byID[presenter])
+		for _, a := range sp.audience {
+			form.Add("audience", a)
 		}
-		// storage policy veto (reference storage): blocked user, id_token -> refresh_token, impersonation of the blocked user
-		veto := user == refstore.BlockedUser || (declared == ttID && (requested == ttRefresh || requested == ""))
-		l := hx.NewLine("C15").I("case", int64(i)).S("router", router).B("cap.te", capTE).S("issuer", opbed.Issuer).
-			B("post", true).B("pkjwt", true).B("refresh", true).B("cap.cc", true).B("cap.device", true)
+		for _, a := range sp.rsrc {
+			form.Add("resource", a)
+		}
+		l := hx.NewLine("C15").I("case", int64(i)).S("router", sp.router).B("cap.te", sp.capTE).B("cap.tev", sp.capTEV).S("issuer", opbed.Issuer).
+			B("post", true).B("pkjwt", true).B("refresh", true).B("cap.cc", true).B("cap.device", true).S("st.default", sp.storeDefault)
+		if sp.fixed != "" {
+			l.S("fixed", sp.fixed)
+		}
 		clientsKV(l, cls)
+		var auth opbed.Auth
+		switch {
+		case sp.reg.auth == "pk":
+			now := time.Now().Unix()
+			key := pres.key
+			if sp.cred == "wrong-secret" {
+				key = hx.Keys()[0] // an assertion signed with a key that is not the client's
+			}
+			auth = opbed.Auth{Kind: "assertion", Assertion: assertion(sy, l, key, "pk1", "px", "px", []string{opbed.Issuer}, now-5, now+300)}
+		case sp.reg.auth == "none":
+			auth = opbed.Auth{Kind: "id-only", ID: "px"}
+		case sp.reg.auth == "post":
+			auth = opbed.Auth{Kind: "post", ID: "px", Secret: px.Secret}
+		default:
+			auth = opbed.Auth{Kind: "basic", ID: "px", Secret: px.Secret}
+		}
+		if sp.cred == "wrong-secret" && auth.Secret != "" {
+			auth.Secret = "wrong"
+		}
 		l.S("auth", auth.Kind).S("cid", auth.ID).S("secret", auth.Secret)
-		l.S("s.kind", skind).S("s.type", declared).B("s.live", subj.liveAs[declared]).S("s.sub", user).S("a.kind", actorKind).S("a.type", actorDeclared).
-			B("a.live", actorKind == "live").S("req.type", requested).L("scopes", scopes).B("veto", veto)
+
+		// effective requested type and the reference storage's policy veto (ground truth for the monitor)
+		effective := sp.requested
+		if effective == "" {
+			effective = sp.storeDefault
+			if effective == "" {
+				effective = ttRefresh
+			}
+		}
+		impersonated := ""
+		for _, s := range sp.scopes {
+			if rest, ok := strings.CutPrefix(s, refstore.ImpersonateScopePrefix); ok {
+				impersonated = rest
+			}
+		}
+		veto := sSub == refstore.BlockedUser || impersonated == refstore.BlockedUser || (declared == ttID && effective == ttRefresh)
+		l.S("s.kind", sp.skind).S("s.type", declared).B("s.live", sLive).S("s.sub", sSub).
+			S("a.kind", sp.akind).S("a.type", actorDeclared).B("a.live", aLive).S("a.sub", aSub).
+			S("req.type", sp.requested).L("scopes", sp.scopes).L("aud", sp.audience).L("res", sp.rsrc).B("veto", veto)
+		// oracle answers for the model (asked of the real libraries / the storage's table just before the request)
+		cs.oracleKV(l, "s.", "S", subj.tok, declared)
+		if sp.akind != "none" {
+			label := "A"
+			if actor.tok == subj.tok {
+				label = "S"
+			}
+			cs.oracleKV(l, "a.", label, actor.tok, actorDeclared)
+		}
+		var liveIDs []string
+		for _, id := range bed.Store.TokenIDs() {
+			if bed.Store.TokenLive(id) {
+				liveIDs = append(liveIDs, id)
+			}
+		}
+		l.L("live", liveIDs)
+
+		bed.Store.LastExchange = nil
 		t0 := time.Now()
 		resp := bed.Do(bed.Form("/oauth/token", form, auth))
 		l.I("now0", t0.UnixNano()).I("now1", time.Now().UnixNano())
+		outcome := ""
 		switch {
 		case resp.Panicked:
 			l.S("obs", "panic")
-			stats["obs-panic"]++
+			outcome = "panic"
 		case resp.Status == 200:
-			kind, live, sub := c15Classify(bed, resp.Str("access_token"))
-			l.S("obs", "ok").S("o.issued", resp.Str("issued_token_type")).S("o.at", kind).B("o.atlive", live).S("o.sub", sub)
+			is := c15Classify(bed, resp.Str("access_token"))
+			l.S("obs", "ok").S("o.issued", resp.Str("issued_token_type")).S("o.at", is.kind).B("o.atlive", is.live).S("o.sub", is.subject).L("o.aud", is.audience)
 			if rt := resp.Str("refresh_token"); rt != "" {
 				rec := bed.Store.Refresh(rt)
-				l.B("o.rt", true).B("o.rtlive", rec != nil)
+				l.B("o.rt", true).B("o.rtlive", rec != nil && rec.Expiration.After(time.Now()))
 			}
 			if sc, ok := resp.JSON["scope"].(string); ok && sc != "" {
 				l.L("o.scopes", strings.Split(sc, " "))
 			}
-			stats["obs-ok-"+shortGrant(resp.Str("issued_token_type"))]++
+			if seen := bed.Store.LastExchange; seen != nil {
+				// what the framework resolved for each role, as handed to the storage policy
+				l.B("o.seen", true).S("o.xsub", seen.Subject).S("o.actor", seen.Actor)
+			}
+			outcome = "ok-" + shortGrant(resp.Str("issued_token_type"))
 		default:
 			l.S("obs", "err").S("o.err", resp.OAuthError()).I("o.status", int64(resp.Status))
-			stats["obs-"+resp.OAuthError()]++
+			outcome = resp.OAuthError()
 		}
-		stats["subject-"+skind]++
+		// ---- distribution
+		stats["obs-"+outcome]++
+		stats["router-"+sp.router]++
+		stats["subject-"+sp.skind]++
+		stats["actor-"+sp.akind]++
+		stats[fmt.Sprintf("presenter-te%d-rt%d-%s", b2i(sp.reg.te), b2i(sp.reg.rt), sp.reg.auth)]++
+		stats["cred-"+sp.cred]++
+		stats[fmt.Sprintf("storage-te%d-verifier%d", b2i(sp.capTE), b2i(sp.capTEV))]++
+		stats["requested-"+c15Short(sp.requested)+"/default-"+c15Short(sp.storeDefault)]++
+		if subj.isTP {
+			stats[fmt.Sprintf("thirdparty-subject-%s/verifier%d/%s", sp.skind, b2i(sp.capTEV), c15Outcome(resp.Status))]++
+		}
+		if sp.akind != "none" && actor.isTP {
+			stats[fmt.Sprintf("thirdparty-actor-%s/verifier%d/%s", sp.akind, b2i(sp.capTEV), c15Outcome(resp.Status))]++
+		}
+		if subj.isTP && sp.akind != "none" && actor.tok == subj.tok {
+			stats["thirdparty-same-token-in-both-roles"]++
+		}
+		if resp.Status == 200 && sp.reg.te && !sp.reg.rt {
+			stats["ok-for-client-with-te-without-refresh-grant:"+c15Short(resp.Str("issued_token_type"))]++
+		}
+		if sp.fixed != "" {
+			stats["fixed-preamble"]++
+		}
 		fmt.Fprintln(w, l.String())
 	}
 	return stats
+}
+
+func c15Outcome(status int) string {
+	if status == 200 {
+		return "ok"
+	}
+	return "refused"
+}
+
+func b2i(b bool) int {
+	if b {
+		return 1
+	}
+	return 0
+}
+
+func c15Short(t string) string {
+	if t == "" {
+		return "absent"
+	}
+	return strings.TrimPrefix(t, "urn:ietf:params:oauth:token-type:")
+}
+
+func c15TP(kind string) string {
+	if strings.HasPrefix(kind, "tp-") {
+		return kind
+	}
+	if kind == "none" {
+		return "none"
+	}
+	return "own"
 }
